@@ -373,3 +373,100 @@ Print Assumptions C06_tr_markidx.
 Print Assumptions C06_tr_markidx_domain.
 Print Assumptions C06_tr_lbuf_mark.
 Print Assumptions C06_tr_lbuf_jump.
+
+(* ---------------------------------------------------------------------------------------------------------------- *)
+(* TEXT BLOCKS INSIDE A COMMAND STRING (ex.c ex_txt(), first branch; added after seeded change C06g).  A typed `rs` reads its
+   text block from the input up to the lone "." (ExDefs.read_block); an `rs` that is executed from a STRING -- a register run by
+   @ whose text holds the `rs x` line, the text lines, the lone "." and further command lines, e.g. lines yanked from the
+   buffer -- takes its block out of that string with a byte scan for "\n.\n" (ExDefs.inline_block) and execution continues
+   behind those three bytes.  Model and reference (ExSpec.ref_txt) SHARE that scan, so C06_refines_spec says nothing about it.
+   ExStrDefs.v states on LINES what the scan must amount to: of the lines t0 :: ls that follow the `rs x` line, t0 is text whatever
+   it is and the block ends before the first later lone "." line ([cut_dot]); that line is consumed and the lines after it
+   are the commands still to run ([str_block]; without a "." line everything is text plus one empty line).
+   C06_rs_block_on_lines: the byte scan equals that cut, for every list of newline-free lines.
+   C06_rs_in_string: executing such a string (model: ex_exec and its trace; reference: ref_exec) is ONE command that changes
+   the addressed register only -- current line, output, buffer, marks, input as before -- followed by exactly the execution
+   of the lines after the "." line (no stray empty command: that would print a line and move the current line).
+   C06_at_rs_string: so `@r` on a register holding it leaves the current line on the first addressed line, sets the register
+   and runs exactly the commands after the "." line, in the model and in the reference; C06_at_rs_string_only: with nothing
+   after the "." the run returns 0 and changes the register and the current line (= first addressed line) only.
+   a / i / c executed from a string read the INPUT (second branch of ex_txt: by definition, nothing to prove). *)
+From NV Require Import ExStrDefs ExStrProps.
+
+Theorem C06_rs_block_on_lines : forall t0 ls, nonl t0 = true -> forallb nonl ls = true ->
+  let '(t, rest) := inline_block (join_lines (t0 :: ls)) [] in
+  t ++ [nl] = join_lines (fst (str_block t0 ls)) /\ rest = join_lines (snd (str_block t0 ls)).
+Proof. exact inline_block_str. Qed.
+Print Assumptions C06_rs_block_on_lines.
+
+Theorem C06_rs_in_string : forall rvalid rfind filter readfile curpath c t0 ls f ret,
+  regch c = true -> nonl t0 = true -> forallb nonl ls = true ->
+  let text := join_lines (fst (str_block t0 ls)) in
+  let rest := join_lines (snd (str_block t0 ls)) in
+  (forall s, let s' := set_regs s (reg_put (regs s) (rs_reg c) text) in
+     ex_exec rvalid rfind filter readfile curpath (S f) ret (rs_string c t0 ls) s =
+       ex_exec rvalid rfind filter readfile curpath f 0 rest s' /\
+     ex_exec_tr rvalid rfind filter readfile curpath (S f) ret (rs_string c t0 ls) s =
+       s' :: ex_exec_tr rvalid rfind filter readfile curpath f 0 rest s') /\
+  (forall r, ref_exec rvalid rfind filter readfile curpath (S f) ret (rs_string c t0 ls) r =
+     ref_exec rvalid rfind filter readfile curpath f 0 rest (r_regs_set r (reg_put (r_regs r) (rs_reg c) text))).
+Proof. exact (fun rvalid rfind filter readfile curpath c t0 ls f ret Hc H0 Hl =>
+  conj (fun s => conj (exec_rs_string rvalid rfind filter readfile curpath c t0 ls f ret s Hc H0 Hl)
+                      (exec_tr_rs_string rvalid rfind filter readfile curpath c t0 ls f ret s Hc H0 Hl))
+       (fun r => rexec_rs_string rvalid rfind filter readfile curpath c t0 ls f ret r Hc H0 Hl)). Qed.
+Print Assumptions C06_rs_in_string.
+
+Theorem C06_at_rs_string : forall rvalid rfind filter readfile curpath loc arg c t0 ls f b e,
+  regch c = true -> nonl t0 = true -> forallb nonl ls = true -> reg_special (REG arg) = false -> ex_zero loc b e = false ->
+  let text := join_lines (fst (str_block t0 ls)) in
+  let rest := join_lines (snd (str_block t0 ls)) in
+  (forall s s1, reg_get s (REG arg) = Some (rs_string c t0 ls) -> ex_region rvalid rfind loc s = (false, b, e, s1) ->
+     ec_at rvalid rfind (ex_exec rvalid rfind filter readfile curpath (S f) 0) loc arg s =
+     let '(s3, r) := ex_exec rvalid rfind filter readfile curpath f 0 rest
+                       (set_regs (set_xrow s1 b) (reg_put (regs s1) (rs_reg c) text)) in (bump s3, r)) /\
+  (forall r r1, ref_reg_get r (REG arg) = Some (rs_string c t0 ls) -> ref_region rvalid rfind loc r = (false, b, e, r1) ->
+     ref_at_cmd rvalid rfind (ref_exec rvalid rfind filter readfile curpath (S f) 0) loc arg r =
+     ref_exec rvalid rfind filter readfile curpath f 0 rest (r_regs_set (r_cur_set r1 b) (reg_put (r_regs r1) (rs_reg c) text))).
+Proof. exact (fun rvalid rfind filter readfile curpath loc arg c t0 ls f b e Hc H0 Hl Hs Hz =>
+  conj (fun s s1 Hg Hr => at_rs_string rvalid rfind filter readfile curpath loc arg s c t0 ls f b e s1 Hc H0 Hl Hs Hg Hr Hz)
+       (fun r r1 Hg Hr => ref_at_rs_string rvalid rfind filter readfile curpath loc arg r c t0 ls f b e r1 Hc H0 Hl Hs Hg Hr Hz)). Qed.
+Print Assumptions C06_at_rs_string.
+
+Theorem C06_at_rs_string_only : forall rvalid rfind filter readfile curpath loc arg s c t0 ls f b e s1,
+  regch c = true -> nonl t0 = true -> forallb nonl ls = true ->
+  reg_special (REG arg) = false -> reg_get s (REG arg) = Some (rs_string c t0 ls) ->
+  ex_region rvalid rfind loc s = (false, b, e, s1) -> ex_zero loc b e = false ->
+  snd (str_block t0 ls) = [] ->
+  let s' := fst (ec_at rvalid rfind (ex_exec rvalid rfind filter readfile curpath (S (S f)) 0) loc arg s) in
+  snd (ec_at rvalid rfind (ex_exec rvalid rfind filter readfile curpath (S (S f)) 0) loc arg s) = 0 /\
+  xrow s' = b /\ out s' = out s1 /\ lns (lb s') = lns (lb s1) /\ marks (lb s') = marks (lb s1) /\ inp s' = inp s1 /\
+  regs s' = reg_put (regs s1) (rs_reg c) (join_lines (fst (str_block t0 ls))).
+Proof. exact at_rs_string_only. Qed.
+Print Assumptions C06_at_rs_string_only.
+
+(* not vacuous, and sharp.  (1) the lines hi / . / .= after `rs b`: the block is [hi], the command still to run is `.=`; the
+   seeded scan (inline_block_short: strstr + `end + 2`) leaves the newline of the "." line in front of it.  (2) what that
+   newline does: on a 7-line buffer with the current line on line 5, `.=` prints 5 and the current line stays; with the stray
+   empty command in front, line 6 is printed, the current line moves there and `.=` prints 6.  (3) the whole scenario through
+   ex_main: lines 1-3 of the file (rs b / hello / .) yanked into register a, `5`, `@a`, `.=`, `d`, `$pu b`, `%p`: printed are
+   "five", 5 and the listing without "five" and with "hello" appended. *)
+Example C06_rs_string_nonvacuous :
+  let P1 := fun _ : bytes => true in let P2 := fun (_ _ : bytes) (_ : bool) => @None (nat * nat) in
+  let P3 := fun _ _ : bytes => @None bytes in let P4 := fun _ : bytes => @None bytes in
+  let file := [114;115;32;98;10; 104;101;108;108;111;10; 46;10; 102;111;117;114;10; 102;105;118;101;10; 115;105;120;10;
+               115;101;118;101;110;10]%N in
+  regch (Some 98%N) = true /\ forallb nonl [[104;105]; [46]; [46;61]]%N = true /\
+  str_block [104;105]%N [[46]; [46;61]]%N = ([[104;105]], [[46;61]])%N /\
+  inline_block (join_lines [[104;105]; [46]; [46;61]]%N) [] = ([104;105], [46;61;10])%N /\
+  inline_block_short (join_lines [[104;105]; [46]; [46;61]]%N) [] = ([104;105], [10;46;61;10])%N /\
+  (let s5 := set_xrow (init_st file [] true) 4 in
+   let e1 := fst (ex_exec P1 P2 P3 P4 [] 5 0 [46;61;10]%N s5) in
+   let e2 := fst (ex_exec P1 P2 P3 P4 [] 5 0 [10;46;61;10]%N s5) in
+   out e1 = [ONum 5] /\ xrow e1 = 4 /\ out e2 = [ONum 6; OLine [115;105;120]%N] /\ xrow e2 = 5) /\
+  (let sc := [[49;44;51;121;32;97]; [53]; [64;97]; [46;61]; [100]; [36;112;117;32;98]; [37;112]; [113;33]]%N in
+   let fin := ex_main P1 P2 P3 P4 [] 20 20 (init_st file sc true) in
+   rev (out fin) = [OLine [102;105;118;101]; ONum 5; OLine [114;115;32;98]; OLine [104;101;108;108;111]; OLine [46];
+                    OLine [102;111;117;114]; OLine [115;105;120]; OLine [115;101;118;101;110]; OLine [104;101;108;108;111]]%N /\
+   flags fin = 0%N /\
+   exists r', ref_main P1 P2 P3 P4 [] 20 20 (abs (init_st file sc true)) = Some r' /\ r_out r' = out fin /\ r_cur r' = 6).
+Proof. vm_compute. repeat split. eexists. repeat split. Qed.
